@@ -9,10 +9,14 @@ TB = ("Trusted: go/types, x/tools v0.29.0 go/packages+go/cfg+go/ssa, the checker
       "third-party libraries and reflect behave as documented. Sites whose origin the analysis cannot resolve are 'assumed' and listed in the evidence. ")
 
 CLAIMS = {
- "C01": dict(rules=["C01.unknown-before-payload","C01.typed-shortcircuit","C01.never-null"],
+ "C01": dict(rules=["C01.unknown-before-payload","C01.typed-shortcircuit","C01.never-null","C01.mirror","C01.range-corners"],
    tech="typestate (relational guard worlds over go/cfg) + return-expression classification on the typed AST",
    text="Decides structural necessary conditions only: in every operation method each payload assertion on an operand is dominated by a guard establishing it is known; mustTypeCheck short-circuits are forced to the documented result kind before every return; every return of the never-null family is non-null by construction or guarded. Level 'other': code-path quantification, not input sampling.",
    note="Not decided: that definite answers derived from refinement ranges are justified, numeric soundness of range arithmetic, equality of known parts. "),
+ "C02": dict(rules=["C01.typed-shortcircuit","C01.mirror","C02.index-agrees-with-hasindex","C02.map-lookup-presence"],
+   tech="typed-AST return-kind classification + sibling agreement (Index/HasIndex key validation; LessThan/GreaterThan mirror) + dominance of presence tests over payload-map lookups",
+   text="Decides: every return of each operation method has the documented result kind; Index and HasIndex reject the same key conditions per receiver kind and the list/tuple branches agree; LessThan and GreaterThan are exact mirror images; every payload-map lookup that produces a member is an iteration, keyed by the object type's attribute names, comma-ok, or dominated by a presence test (missing keys are rejected, never a null member).",
+   note="Not decided: every numeric clause (agreement with exact rational arithmetic, precision selection, truth tables on runtime values). "),
  "C03": dict(rules=["C03.kind-total"],
    tech="kind-dispatch coverage of the equality / hashing / ordering entry points",
    text="Decides: Equals, RawEquals and the set hash cover every kind of type with a panicking residual, and the set ordering covers the three primitive kinds.",
